@@ -313,7 +313,22 @@ func H_C14_recursive_types() {
 	selfMap := func(ord byte) []byte { return refCat([]byte{'H'}, refStr("a"), []byte{0x51, 0x90 + ord}, []byte{'Z'}) }
 	var field string
 	var val []byte
-	switch vChoice("shape", 7) {
+	switch vChoice("shape", 9) {
+	case 7: // a 40-level DAG of lists, each holding the next one twice (the second time by back-reference): 2^40
+		// paths through 41 lists; the conversion to the recursive slice type must visit each list once
+		const d = 40
+		val = []byte{0x78} // the innermost, empty list: ordinal d+1
+		for j := 1; j <= d; j++ {
+			val = refCat([]byte{0x7a}, val, []byte{0x51, byte(0x90 + 1 + d - (j - 1))})
+		}
+		field = "s"
+	case 8: // the same with maps
+		const d = 40
+		val = []byte{'H', 'Z'}
+		for j := 1; j <= d; j++ {
+			val = refCat([]byte{'H'}, refStr("a"), val, refStr("b"), []byte{0x51, byte(0x90 + 1 + d - (j - 1))}, []byte{'Z'})
+		}
+		field = "m"
 	case 0: // #0 object, #1 list, #2 the map that holds itself
 		field, val = "l", refCat([]byte{0x79}, selfMap(2))
 	case 1: // #1 outer map, #2 inner map holding itself
@@ -333,6 +348,7 @@ func H_C14_recursive_types() {
 	if vChoice("damage", 2) == 1 {
 		in[len(in)-2] = vUint8("octet")
 	}
+	vMapOrderFixed(true) // the order in which the two entries of each of 40 nested maps are visited is not the subject
 	vAllocBound(65536 + len(in))
 	vStepLimit(200000 + 20000*len(in))
 	ToObject(in, tm)
